@@ -19,3 +19,4 @@ for c in $(git rev-list --reverse "main..w/$n"); do
   git cherry-pick "$c" >/tmp/cp.log 2>&1 || { echo "CHERRY-PICK CONFLICT at $c: $s"; git status --short | grep -E '^(UU|AA|DU|UD)'; exit 2; }
   echo "picked: $s"
 done
+cd /verif && python3 tools/dedupe_findings.py >/dev/null
